@@ -19,6 +19,9 @@ type CodeWriter struct {
 	// semiOmitted is set when WriteSemi left out an optional semicolon: the text
 	// written next decides whether the statement has to be terminated after all.
 	semiOmitted bool
+
+	// mapping is the source position requested by AddMapping for the text written next.
+	mapping *mappingRequest
 }
 
 // emitString appends s to the buffer and keeps the source mapper's position in step.
@@ -99,6 +102,7 @@ func (cw *CodeWriter) WriteString(s string) {
 		cw.closeStatement(s[0])
 		cw.separate(s[0])
 	}
+	cw.recordMapping()
 	cw.emitString(s)
 }
 
@@ -109,6 +113,7 @@ func (cw *CodeWriter) WriteRune(r rune) {
 		cw.closeStatement(byte(r))
 		cw.separate(byte(r))
 	}
+	cw.recordMapping()
 	cw.emitRune(r)
 }
 
